@@ -1,10 +1,12 @@
 //vp:property C10
 //vp:pkg ./tsdb/chunkenc
+//vp:roots ./model/value
 //vp:budget paths=3000000 wall_s=420
 //vp:concretize (*github.com/prometheus/prometheus/tsdb/chunkenc.bstream).writeBits:nbits (*github.com/prometheus/prometheus/tsdb/chunkenc.bstream).writeBitsFast:nbits (*github.com/prometheus/prometheus/tsdb/chunkenc.bstreamReader).readBits:nbits (*github.com/prometheus/prometheus/tsdb/chunkenc.bstreamReader).readBitsFast:nbits (*github.com/prometheus/prometheus/tsdb/chunkenc.bstreamReader).loadNextBuffer:nbits
 //vp:bounds bounded from empty through the public API (NewXORChunk/NewXOR2Chunk, Appender, Append, Iterator): profiles of N appends of (st, t, v) with strictly increasing t in [-2^62, 2^62], float64 values as arbitrary bit patterns, arbitrary st (XOR2)
 //vp:bounds quick: A = 2 samples, first t in [-64,64), second sample arbitrary; B = 3 samples, first t in [0,64), first delta in [1,64), v1==v0 (so the third sample meets every delta-of-delta class and every value class with an empty window), third sample arbitrary
 //vp:bounds thorough adds: C = 2 arbitrary samples; D = 3 samples, first t in [0,64), first delta in [1,64), v1 arbitrary (third sample meets the reuse-window class); E = 3 samples, first t in [0,64), first delta arbitrary, v1==v0
+//vp:bounds XOR2 quick: profiles A and B with all start timestamps 0, plus S2 = 2 samples with pinned t/v and arbitrary start timestamps; thorough adds C, D, E (st=0), A and B with arbitrary start timestamps, and S3 = 3 samples with pinned t/v and arbitrary start timestamps
 //vp:assume timestamps strictly increasing and within +-2^62 (the range the property states)
 package chunkenc
 
@@ -28,25 +30,70 @@ func vpXProfile(ts []int64, vs []float64, profile int) int {
 		small(0, 64, ts[0])
 		small(1, 64, ts[1]-ts[0])
 		return 3
-	default: // E
+	case 4: // E
 		small(0, 64, ts[0])
 		vpAssume(math.Float64bits(vs[0]) == math.Float64bits(vs[1]))
+		return 3
+	case 5: // S2: timestamps and values pinned, start timestamps free (XOR2)
+		small(0, 64, ts[0])
+		small(1, 64, ts[1]-ts[0])
+		vpAssume(math.Float64bits(vs[0]) == math.Float64bits(vs[1]))
+		return 2
+	default: // S3
+		small(0, 64, ts[0])
+		small(1, 64, ts[1]-ts[0])
+		small(1, 64, ts[2]-ts[1])
+		vpAssume(math.Float64bits(vs[0]) == math.Float64bits(vs[1]))
+		vpAssume(math.Float64bits(vs[1]) == math.Float64bits(vs[2]))
 		return 3
 	}
 }
 
+// XOR: profiles A,B quick; A..E thorough. XOR2: (A,B with st=0, S2) quick; (A..E with st=0, A,B with free st, S2, S3) thorough.
 func vpXRoundTrip(c Chunk, withST bool) {
-	hi := 1
-	if vpThorough() {
-		hi = 4
+	var profile int
+	stFree := false
+	if !withST {
+		hi := 1
+		if vpThorough() {
+			hi = 4
+		}
+		profile = vpShape("profile", 0, hi)
+	} else {
+		hi := 2
+		if vpThorough() {
+			hi = 8
+		}
+		switch vpShape("profile2", 0, hi) {
+		case 0:
+			profile = 0
+		case 1:
+			profile = 1
+		case 2:
+			profile, stFree = 5, true
+		case 3:
+			profile = 2
+		case 4:
+			profile = 3
+		case 5:
+			profile = 4
+		case 6:
+			profile, stFree = 0, true
+		case 7:
+			profile, stFree = 1, true
+		default:
+			profile, stFree = 6, true
+		}
 	}
-	profile := vpShape("profile", 0, hi)
 	st, ts, vs := make([]int64, 3), make([]int64, 3), make([]float64, 3)
 	for i := 0; i < 3; i++ {
 		st[i], ts[i], vs[i] = vpInt64(), vpInt64(), vpFloat64()
 		vpAssume(vpAnd(ts[i] >= -(1<<62), ts[i] <= 1<<62))
 		if i > 0 {
 			vpAssume(ts[i-1] < ts[i])
+		}
+		if withST && !stFree {
+			vpAssume(st[i] == 0)
 		}
 	}
 	n := vpXProfile(ts, vs, profile)
@@ -82,3 +129,5 @@ func vpXRoundTrip(c Chunk, withST bool) {
 }
 
 func vpH_C10_xor_bounded() { vpXRoundTrip(NewXORChunk(), false) }
+
+func vpH_C10_xor2_bounded() { vpXRoundTrip(NewXOR2Chunk(), true) }
